@@ -418,6 +418,10 @@ func (l *List) ToDynamoDB() types.Item {
 
 // Get returns the contained object in the position
 func (l *List) Get(position int64) Object {
+	if position < 0 || position >= int64(len(l.Value)) {
+		return UNDEFINED
+	}
+
 	obj := l.Value[position]
 	if obj == nil {
 		return UNDEFINED
